@@ -137,7 +137,7 @@ def capture_rule(ctx, facts, cfg):
         if t['k'] == 'call':
             p = (F.call_path(t) or '').split('::')[-1]
             if p.startswith('opt_rr_'):
-                getter_blocks[p] = bi
+                getter_blocks.setdefault(p, []).append(bi)
     # each summary field is fed by the getter of the same role
     for bi, b in F.blocks(f):
         for s in b['stmts']:
@@ -152,8 +152,14 @@ def capture_rule(ctx, facts, cfg):
                 if not ok:
                     ctx.violation(rid, key, 'role-' + lf[1], 'DNSSector.%s is fed by %s, expected %s (crossed OPT fields)' % (lf[1], srcs, ROLE[lf[1]]), site=s['at'], config=cfg)
     for need in list(ROLE.values()) + ['opt_rr_rdlen']:
-        gb = getter_blocks.get(need)
-        ok = gb is not None and inc_blocks and all(gb in dom.get(ib, ()) for ib in inc_blocks)
+        gbs = getter_blocks.get(need) or []
+        # the skip of the fixed OPT part is the increment by a constant; every such skip must come after some read of the field
+        skips = [ib for ib in inc_blocks if len(f['blocks'][ib]['term']['args']) > 1 and F.expr(f, defs, f['blocks'][ib]['term']['args'][1])[0] == 'const'] or inc_blocks
+        ok = bool(gbs) and bool(skips) and all(any(gb in dom.get(ib, ()) for gb in gbs) for ib in skips)
+        if not ok and gbs and skips:
+            # reads made in a helper whose Ok and Err outcomes share a join block: decide on feasible paths
+            from analysis.cfg import must_pass
+            ok = must_pass(facts, key, gbs, skips) == set()
         ctx.instance(rid, 'parse_opt: %s is read before the OPT header is skipped' % need, ok=bool(ok), site=f['at'])
         if not ok:
             ctx.violation(rid, key, 'order-' + need, '%s must be read (relative to the end of the owner name) before increment_offset(DNS_OPT_RR_HEADER_SIZE)' % need, site=f['at'], config=cfg)
